@@ -1694,6 +1694,11 @@ func stepCandidate(r *raft, m *pb.Message) error {
 		r.becomeFollower(m.GetTerm(), m.GetFrom()) // always m.Term == r.Term
 		r.handleSnapshot(m)
 	case myVoteRespType:
+		if r.state == StatePreCandidate && !m.GetReject() && m.GetTerm() != r.Term+1 {
+			// A granted pre-vote carries the term it was granted for. A grant for
+			// an earlier pre-campaign must not count towards the current one.
+			return nil
+		}
 		gr, rj, res := r.poll(m.GetFrom(), m.GetType(), !m.GetReject())
 		r.logger.Infof("%x has received %d %s votes and %d vote rejections", r.id, gr, m.GetType(), rj)
 		switch res {
